@@ -420,6 +420,10 @@ pub fn k7(dir: &str, thorough: bool, seed: u64) {
                     out.count(&format!("{variant}_{}", if kind == "err" { ans.clone() } else { kind.clone() }));
                     let nontrivial = kind == "ok" && ans.contains('1') && ans.contains('0');
                     out.case(&eval_req(variant, &formulas), &ans, nontrivial);
+                    if variant.ends_with("dirty") {
+                        // the same inputs through the proved-correct cache-free evaluator of the model
+                        out.case(&eval_req(&format!("pure_{variant}"), &formulas), &ans, nontrivial);
+                    }
                     out.oracle(kind != "panic", "C14", "entry point panicked", &format!("{name} k={k} {variant} {formulas:?}"));
                     if kind == "ok" && variant.ends_with("dirty") {
                         for (bits, f) in ans.split(' ').skip(1).zip(formulas.iter()) {
